@@ -13,9 +13,13 @@ use libc::c_int;
 
 /// `natt`: number of user attachments (0, or 3 = sender + receiver + sender)
 /// `mask_bits`: how many leading attempts may be refused with ENOBUFS
-fn send_plan(natt: usize, mask_bits: u32, max_len: usize) {
+fn send_plan(natt: usize, mask_bits: u32, max_len: usize, max_sb: u32) {
+    send_plan_n(natt, mask_bits, max_len, max_sb, 10)
+}
+fn send_plan_n(natt: usize, mask_bits: u32, max_len: usize, max_sb: u32, max_attempts: usize) {
     env::link();
-    let sb: u32 = any_u32_in(4096, 1 << 24);
+    env::set_max_attempts(max_attempts);
+    let sb: u32 = any_u32_in(4096, max_sb);
     env::set_sndbuf(sb);
     env::set_record_only(true);
     let first_window = OsIpcSender::get_max_fragment_size(); // what the receiver's first read can take
@@ -174,9 +178,13 @@ pub fn send_many(n: usize, len: usize, sb: u32, mask: u32) {
 
 harnesses! {
     // no refusals: all lengths and buffer sizes, up to 8 packets
-    #[unwind(12)] fn send_plan_noatt_nofault() { send_plan(0, 0, 1 << 26) }
-    #[unwind(12)] fn send_plan_att_nofault() { send_plan(3, 0, 1 << 26) }
+    #[unwind(12)] fn send_plan_noatt_nofault() { send_plan(0, 0, 1 << 26, 1 << 24) }
+    #[unwind(12)] fn send_plan_att_nofault() { send_plan(3, 0, 1 << 26, 1 << 24) }
     // every ENOBUFS pattern over the first 8 attempts
-    #[unwind(12)] fn send_plan_noatt_enobufs() { send_plan(0, 8, 1 << 26) }
-    #[unwind(12)] fn send_plan_att_enobufs() { send_plan(3, 8, 1 << 26) }
+    #[unwind(12)] fn send_plan_noatt_enobufs() { send_plan(0, 8, 1 << 26, 1 << 24) }
+    // quick-tier variants: <= 6 attempts, 4 mask bits, buffer size <= 1 MiB, length <= 4 MiB (same code paths; the
+    // full ranges above are the thorough tier)
+    #[unwind(8)] fn send_plan_noatt_enobufs_q() { send_plan_n(0, 4, 1 << 22, 1 << 20, 6) }
+    #[unwind(8)] fn send_plan_att_enobufs_q() { send_plan_n(3, 4, 1 << 22, 1 << 20, 6) }
+    #[unwind(12)] fn send_plan_att_enobufs() { send_plan(3, 8, 1 << 26, 1 << 24) }
 }
